@@ -573,9 +573,17 @@ func (s *Subtitles) Fragment(f time.Duration) {
 		return
 	}
 
+	// The last subtitle is not necessarily the one that ends last
+	var maxEndAt time.Duration
+	for _, sub := range s.Items {
+		if sub.EndAt > maxEndAt {
+			maxEndAt = sub.EndAt
+		}
+	}
+
 	// Here we want to simulate fragments of duration f until there are no subtitles left in that period of time
 	var fragmentStartAt, fragmentEndAt = time.Duration(0), f
-	for fragmentStartAt < s.Items[len(s.Items)-1].EndAt {
+	for fragmentStartAt < maxEndAt {
 		// We loop through subtitles and process the ones that either contain the fragment start at,
 		// or contain the fragment end at
 		//
